@@ -163,7 +163,7 @@ Section Sel.
                               (en_variants en) vv Hin) as [vv' [Ha Hin']].
     unfold enum_texts. rewrite Ha.
     destruct (proj1 (sup_enum A Hcore e en Hget) (m, vv') Hin') as [x [Hx Hx0]]. cbn [snd] in Hx. subst vv'.
-    rewrite (int_literal_string_of_Z x Hx0). eauto.
+    rewrite (int_literal_string_of_Z x ltac:(lia)). eauto.
   Qed.
 
   (* ---------- a label's pattern matches exactly the values the label stands for ---------- *)
